@@ -389,19 +389,18 @@ func classifyColumnAtom(a atom) string {
 	if isIndexField(b.X) {
 		if k, ok := constInt(b.Y); ok {
 			switch {
-			case b.Op == token.LSS && k == 0, b.Op == token.EQL && k == -1, b.Op == token.LEQ && k == -1:
+			case (b.Op == token.EQL || b.Op == token.NEQ) && k == -1:
+				return "absent" // equality atom: its polarity decides
+			case b.Op == token.LSS && k == 0, b.Op == token.LEQ && k == -1:
 				return "absent"
-			case b.Op == token.GEQ && k == 0, b.Op == token.NEQ && k == -1, b.Op == token.GTR && k == -1:
+			case b.Op == token.GEQ && k == 0, b.Op == token.GTR && k == -1:
 				return "present"
 			}
 		}
 	}
 	if (b.Op == token.EQL || b.Op == token.NEQ) && isCell(b.X) {
 		if s, ok := constString(b.Y); ok && s == "" {
-			if b.Op == token.EQL {
-				return "blank"
-			}
-			return "nonblank"
+			return "blank" // the atom's own polarity says whether the equality holds (== taken true, != taken false, ...)
 		}
 	}
 	return "?"
